@@ -20,7 +20,8 @@ RULE = ("programs of 1..10 statements are drawn from the statement grammar (assi
         "continuation, strings holding '#', '>>>' and '...', calls of earlier definitions, reads of earlier variables, "
         "top-level await, async def, async with); every statement carries a unique id.  Each program is written down in "
         "three random layouts (prompt style per statement, base indent 0/4/8 by spaces or tabs, wants = exact "
-        "accumulated output placed at random, prose and blank lines, google 'Example:' block or freeform).  A case is "
+        "accumulated output placed at random, prose and blank lines, google 'Example:' block or freeform, the example "
+        "after a want / blank line / prose written at another indentation 0/2/4/6 than the one before).  A case is "
         "one (program, layout); it is non-trivial when it has a multi-line or compound statement and at least one want; "
         "distinct cases are counted by the hash of the docstring text")
 ASSUMPTIONS = [
@@ -41,7 +42,8 @@ def required_cells(tier):
     cells = ['kind:%s' % k for k in sorted(set(gp.ProgramGen.C01_KINDS))]
     cells += ['wrapper:google', 'wrapper:freeform', 'indent:tabs', 'indent:0', 'indent:4', 'indent:8',
               'coroutine-part', 'want-placed', 'multi-part', 'unprefixed-string-line', 'comment-only-skipped',
-              'verbose:0', 'verbose:3']
+              'verbose:0', 'verbose:3', 'reindent-after-want:less', 'reindent-after-want:more',
+              'reindent-after-separator']
     return cells
 
 
@@ -88,6 +90,9 @@ def check_layout(ctx, case, stmts, ref, rng):
     ctx.cell('verbose:%d' % verbose)
     if info['wants']:
         ctx.cell('want-placed')
+    for f in info['features']:
+        if f.startswith('reindent'):
+            ctx.cell(f)
     if info['unprefixed']:
         ctx.cell('unprefixed-string-line')
     if any(e[0] == 'exec' and e[2] for e in ev):
